@@ -735,8 +735,14 @@ def abbreviate(rng, tr):
     matrix is what the entries determine.'''
     if tr['star']:
         return tr
-    mask = MASKS[rng.choice(['rows01', 'rows12', 'rows02', 'cols01', 'cols12',
-                             'cols02', 'r0c0', 'r1c2', 'r2c1', 'r0c1'])]
+    name = rng.choice(['rows01', 'rows12', 'rows02', 'cols01', 'cols12',
+                       'cols02', 'r0c0', 'r1c2', 'r2c1', 'r0c1'])
+    if name[0] == 'r' and name[2] == 'c' and \
+            abs(abs(tr['B'][3 * int(name[1]) + int(name[3])]) - 1) < 1e-6:
+        # a row and a column through an entry +-1 do not determine the
+        # rotation: spell two rows instead
+        name = 'rows01'
+    mask = MASKS[name]
     out = dict(tr)
     out['print'] = list(tr['print'][:3]) + [
         v if m else None for v, m in zip(tr['print'][3:12], mask)]
